@@ -440,6 +440,77 @@ func runCheck(cmd, prop, tier, repo, root, only string, keep, verbose, writeExpe
 				}
 				return false
 			}
+			// every conditional postcondition `A ==> B` has an exit at which A can hold (a clause whose
+			// antecedent is excluded at every exit -- e.g. because the success path became unreachable --
+			// says nothing). Exits are tried last to first; anything but `unsat` counts as reachable.
+			{
+				byStem := map[string][]*OblReport{}
+				var stems []string
+				for _, rep := range reports {
+					if rep == nil || rep.obl == nil || rep.obl.Kind != "ensures" || rep.obl.Ctx != c {
+						continue
+					}
+					stem := reExitOrd.ReplaceAllString(rep.Name, "")
+					if _, ok := byStem[stem]; !ok {
+						stems = append(stems, stem)
+					}
+					byStem[stem] = append(byStem[stem], rep)
+				}
+				for _, stem := range stems {
+					reps := byStem[stem]
+					covered := ""
+					conditional := false
+					for i := len(reps) - 1; i >= 0; i-- {
+						g, ok := parseSx(reps[i].obl.Goal)
+						if !ok || g.head() != "=>" || len(g.kids) != 3 {
+							covered = "unconditional"
+							break
+						}
+						conditional = true
+						co := &Obligation{Name: reps[i].Name + "#vacuity:antecedent", Decls: len(c.decls), PC: reps[i].obl.PC, Goal: g.kids[1].String(), Ctx: c, Full: true}
+						if b5 := quickSolve(buildQuery(co, false, false), smtDir, co.Name, 3); b5.Result != "unsat" {
+							covered = b5.Result
+							break
+						}
+					}
+					if !conditional || covered == "unconditional" {
+						continue
+					}
+					vmu.Lock()
+					if covered == "" {
+						covered = "none"
+					}
+					vacs = append(vacs, vac{r.Name, "canary-antecedent-coverable:" + strings.TrimPrefix(stem, r.Name+"#"), covered})
+					if covered == "none" {
+						if failedIn() {
+							fmt.Printf("note: the antecedent of %s holds at no exit once an earlier failed obligation is assumed\n", stem)
+						} else {
+							broken = true
+							fmt.Printf("BROKEN: the antecedent of %s can hold at no exit of the function (the clause would hold vacuously)\n", stem)
+						}
+					}
+					vmu.Unlock()
+				}
+			}
+			// every site of an `assert at ...` clause is reachable (an assertion behind a dead branch holds vacuously)
+			for _, rep := range reports {
+				if rep == nil || rep.obl == nil || rep.obl.Kind != "assert" || rep.obl.Ctx != c {
+					continue
+				}
+				so := &Obligation{Name: rep.Name + "#vacuity:site", Decls: len(c.decls), PC: rep.obl.PC, Goal: "", Ctx: c, Full: true}
+				b4 := quickSolve(buildQuery(so, false, false), smtDir, so.Name, 3)
+				vmu.Lock()
+				vacs = append(vacs, vac{r.Name, "canary-site-reachable:" + strings.TrimPrefix(rep.Name, r.Name+"#"), b4.Result})
+				if b4.Result == "unsat" {
+					if failedIn() {
+						fmt.Printf("note: the site of %s is unreachable once an earlier failed obligation is assumed\n", rep.Name)
+					} else {
+						broken = true
+						fmt.Printf("BROKEN: the site of %s is unreachable under the function's assumptions (the assertion would hold vacuously)\n", rep.Name)
+					}
+				}
+				vmu.Unlock()
+			}
 			for _, lp := range c.loopPCs {
 				lo := &Obligation{Name: fmt.Sprintf("%s#vacuity:loop%d", r.Name, lp.ord), Decls: len(c.decls), PC: lp.pc, Goal: "", Ctx: c, Full: true}
 				b3 := quickSolve(buildQuery(lo, false, false), smtDir, lo.Name, 3)
